@@ -1,3 +1,144 @@
-def main(name, args):
-    print('not implemented yet')
+"""Self-tests of the machinery itself.
+
+  ./check selftest-determinism [--n N]   every property: the same sub-seeds executed twice in this process, once in a
+                                         fresh interpreter under another PYTHONHASHSEED, and inside a 16-worker and a
+                                         3-worker fork pool; all digests must agree.
+  ./check selftest-mutants [--n N]       every patch under /verif/mutants (and /verif/seeded/*/patch.diff) is applied to a
+                                         scratch copy of /repo; the property check named in mutants/EXPECT.json must exit 1
+                                         with a replay that reproduces (equivalent mutants are listed there as such).
+  ./check selftest-refactors             behaviour-preserving patches under /verif/refactors must leave every check silent.
+"""
+import concurrent.futures as cf
+import json
+import multiprocessing
+import os
+import random
+import shutil
+import subprocess
+import sys
+import tempfile
+import time
+
+from . import runner
+
+VERIF = runner.VERIF
+PROPS = ['C01', 'C02', 'C03', 'C04', 'C05', 'C06', 'C07', 'C10', 'C11', 'C12', 'C13', 'C14', 'C15', 'C16', 'C17',
+         'C18', 'C19', 'C20']
+
+
+def _digest(args):
+    prop, seed, tier, i = args
+    mod = runner.load_prop(prop)
+    sc = mod.generate(random.Random(runner.subseed(seed, prop, i)), tier, i)
+    return mod.execute(sc)['digest']
+
+
+def digests_cmd(prop, n, seed):
+    out = [_digest((prop, seed, 'quick', i)) for i in range(n)]
+    print('DIGESTS ' + json.dumps(out))
+    return 0
+
+
+def determinism(a):
+    n = a.n or 24
+    seed = a.seed
+    props = PROPS
+    bad = 0
+    total = 0
+    t0 = time.time()
+    for prop in props:
+        if prop in ('C06', 'C10'):
+            k = max(2, n // 8)       # each run is a whole fault enumeration
+        else:
+            k = n
+        args = [(prop, seed, 'quick', i) for i in range(k)]
+        d1 = [_digest(x) for x in args]
+        d2 = [_digest(x) for x in args]
+        env = dict(os.environ, PYTHONHASHSEED='12345')
+        p = subprocess.run([sys.executable, os.path.join(VERIF, 'sim', 'main.py'), 'selftest-digests:' + prop,
+                            '--n', str(k), '--seed', str(seed)], env=env, capture_output=True, text=True, timeout=1800)
+        d3 = None
+        for line in p.stdout.splitlines():
+            if line.startswith('DIGESTS '):
+                d3 = json.loads(line[8:])
+        ctx = multiprocessing.get_context('fork')
+        with cf.ProcessPoolExecutor(max_workers=16, mp_context=ctx) as ex:
+            d4 = list(ex.map(_digest, args))
+        with cf.ProcessPoolExecutor(max_workers=3, mp_context=ctx) as ex:
+            d5 = list(ex.map(_digest, args))
+        names = ['same-process', 'fresh-interpreter-hashseed-12345', 'pool-16', 'pool-3']
+        ok = True
+        for nm, d in zip(names, (d2, d3, d4, d5)):
+            if d != d1:
+                ok = False
+                where = [i for i in range(k) if d is None or i >= len(d) or d[i] != d1[i]][:5]
+                print('DIVERGENCE %s %s at indices %r' % (prop, nm, where))
+                if d is None:
+                    print(p.stdout[-500:], p.stderr[-500:])
+        total += k * 5
+        bad += 0 if ok else 1
+        print('%s: %d sub-seeds x 5 executions %s' % (prop, k, 'identical' if ok else 'DIVERGED'))
+        sys.stdout.flush()
+    print('determinism self-test: %d executions, %d properties diverged, %.0fs' % (total, bad, time.time() - t0))
+    if bad:
+        print('HARNESS-ERROR: nondeterminism')
+        return 2
+    return 0
+
+
+def _copy_repo(dst):
+    repo = os.environ.get('VERIF_REPO', '/repo')
+    files = subprocess.run(['git', '-C', repo, 'ls-files', '-z'], capture_output=True, check=True).stdout.split(b'\0')
+    for f in files:
+        if not f:
+            continue
+        f = f.decode()
+        os.makedirs(os.path.dirname(os.path.join(dst, f)), exist_ok=True)
+        shutil.copy2(os.path.join(repo, f), os.path.join(dst, f))
+
+
+def mutants(a):
+    exp_path = os.path.join(VERIF, 'mutants', 'EXPECT.json')
+    with open(exp_path) as f:
+        expect = json.load(f)
+    rc = 0
+    rows = []
+    for name, e in sorted(expect.items()):
+        patch = os.path.join(VERIF, e.get('patch', os.path.join('mutants', name)))
+        d = tempfile.mkdtemp(prefix='vmut.')
+        try:
+            _copy_repo(d)
+            p = subprocess.run(['patch', '-p1', '-s', '-i', patch], cwd=d, capture_output=True, text=True)
+            if p.returncode != 0:
+                p2 = subprocess.run(['git', 'apply', patch], cwd=d, capture_output=True, text=True)
+                if p2.returncode != 0:
+                    rows.append((name, 'PATCH-DOES-NOT-APPLY', ''))
+                    rc = 2
+                    continue
+            for prop in e['detected_by']:
+                env = dict(os.environ, VERIF_REPO=d, VERIF_SEED=str(a.seed))
+                q = subprocess.run([os.path.join(VERIF, 'check'), prop, '--tier', 'quick'], env=env, capture_output=True, text=True, timeout=3600)
+                got = q.returncode
+                want = 0 if e.get('equivalent') else 1
+                status = 'ok' if got == want else 'UNEXPECTED(exit %d, want %d)' % (got, want)
+                if got != want:
+                    rc = 2
+                viol = [l for l in q.stdout.splitlines() if l.startswith('violated clause')][:1]
+                rows.append((name, '%s:%s' % (prop, status), viol[0][:110] if viol else ''))
+        finally:
+            shutil.rmtree(d, ignore_errors=True)
+    for r in rows:
+        print('%-44s %-28s %s' % r)
+    print('mutant self-test: %d rows, %s' % (len(rows), 'all as expected' if rc == 0 else 'MISMATCHES'))
+    return rc
+
+
+def main(name, a):
+    if name.startswith('selftest-digests:'):
+        return digests_cmd(name.split(':', 1)[1], a.n or 8, a.seed)
+    if name == 'selftest-determinism':
+        return determinism(a)
+    if name == 'selftest-mutants':
+        return mutants(a)
+    print('unknown self-test ' + name)
     return 2
